@@ -43,6 +43,7 @@ type Kernel struct {
 	MaxSteps        int64                     `json:"max_steps"`
 	MaxPaths        map[string]int64          `json:"max_paths"`
 	DeadlineS       map[string]int            `json:"deadline_s"`
+	WithPkgs        []string                  `json:"with_pkgs"` // other packages whose harness files must be overlaid too
 	Tiers           []string                  `json:"tiers"` // tiers in which the kernel runs (default both)
 	Desc            string                    `json:"desc"`
 	Bounds          map[string]string         `json:"bounds"` // tier -> human readable bound
@@ -409,9 +410,17 @@ func firstMatchLine(text string, keys ...string) string {
 }
 
 func kernelsOfPkg(all []*Kernel, pkg string) []*Kernel {
-	var r []*Kernel
+	set := map[string]bool{pkg: true}
 	for _, k := range all {
 		if k.Pkg == pkg {
+			for _, w := range k.WithPkgs {
+				set[w] = true
+			}
+		}
+	}
+	var r []*Kernel
+	for _, k := range all {
+		if set[k.Pkg] {
 			r = append(r, k)
 		}
 	}
